@@ -268,11 +268,18 @@ func runPlainFraming(toks []string) string {
 		hb := strings.Split(t, "/")
 		h, _ := strconv.Atoi(hb[0])
 		b, _ := strconv.Atoi(hb[1])
-		head := fmt.Sprintf("POST /m%d HTTP/1.1\r\nHost: x\r\nContent-Length: %d\r\nX-Pad: ", i, b)
+		// line ends: CRLF, or (5th token "lf") a bare LF, or ("mix") alternating -- net/http accepts all of them
+		nl, nl2 := "\r\n", "\r\n"
+		if len(toks) > 4 && toks[4] == "lf" {
+			nl, nl2 = "\n", "\n"
+		} else if len(toks) > 4 && toks[4] == "mix" {
+			nl, nl2 = "\n", "\r\n"
+		}
+		head := fmt.Sprintf("POST /m%d HTTP/1.1%sHost: x%sContent-Length: %d%sX-Pad: ", i, nl, nl2, b, nl)
 		for len(head)+4 < h {
 			head += "p"
 		}
-		head += "\r\n\r\n"
+		head += nl2 + nl
 		body := make([]byte, b)
 		for j := range body {
 			body[j] = byte('a' + (i+j)%26)
